@@ -553,7 +553,7 @@ type PathOpts struct {
 	// path, its parameters resolve to the arguments, and what it returns is bound to the
 	// call's results. Used to make rules independent of how a function is cut into helpers.
 	Inline      func(root, callee *ssa.Function) bool
-	InlineDepth int  // default 3
+	InlineDepth int  // default 2
 	NoInline    bool // walkAll's default policy (localHelper) is not wanted
 	// EmitTruncated also visits the prefixes that are cut off when a loop would be entered
 	// again (Path.Truncated): for rules that look at sites inside loops that never return.
@@ -570,7 +570,7 @@ func WalkPaths(fn *ssa.Function, opts PathOpts, visit func(p *Path) bool) (n int
 		opts.MaxVisits = 2
 	}
 	if opts.InlineDepth == 0 {
-		opts.InlineDepth = 3
+		opts.InlineDepth = 2
 	}
 	if tierThorough {
 		// one more unrolling of every loop, and room for the extra paths
